@@ -268,7 +268,7 @@ def run_heap(ops):
 
 class C15(Prop):
     id = "C15"
-    theorems = []
+    theorems = ["Heap.apply_extends", "Heap.obsArr_append", "Heap.wf_step", "Heap.wf_run", "Heap.wf_step_counterexample", "Heap.nonmut_frame", "Heap.nonmut_history_frame", "Heap.deepCopy_spec", "Heap.mutate_below", "Heap.mutate_above", "Heap.obsArr_below", "Heap.obsArr_above", "Heap.separation_below", "Heap.separation_above", "Heap.copy_independent", "Heap.copy_independent_rev"]
     rule = ("(heap) object-level histories of 2-9 steps over 1-5 live arrays of rank 1-3: create (unsorted integer labels, "
             "metadata with atoms and mutable lists on the array and on its axes), copy(), transpose, squeeze, a[:], "
             "take(scalar), take(list), a + k, sort_axis, and in-place mutations through any live array (a value cell, a label, "
@@ -367,6 +367,90 @@ class C15(Prop):
                 ops.append(["mut", k, mm])
         return {"op": "heap", "ops": ops, "_groups": groups, "seed": i}
 
+    def gen_ds(self, rng, i):
+        """a Dataset built from 1-3 arrays over shared dimensions, then non-in-place Dataset calls"""
+        dims = rng.sample(["x", "y", "z"], rng.randint(1, 3))
+        labels = {d: rng.sample(range(0, 9), rng.randint(2, 3)) for d in dims}
+        vars_ = []
+        for k in range(rng.randint(1, 3)):
+            vd = rng.sample(dims, rng.randint(1, len(dims)))
+            vars_.append(["v%d" % k, vd])
+        calls = []
+        for _ in range(rng.randint(1, 4)):
+            d = rng.choice(dims)
+            n = len(labels[d])
+            calls.append(rng.choice([
+                ["set_axis", d, [rng.randint(10, 30) + 100 * j for j in range(n)]],
+                ["rename_axes", d, rng.choice(["p", "q"])],
+                ["rename_keys", vars_[0][0], "w"],
+                ["take", d, rng.randrange(n)],
+                ["mean", d], ["sort_axis", d], ["copy"], ["to_array"],
+                ["reindex_axis", d, [labels[d][0], 77]],
+                ["take_axis", d, [0]],
+                ["getitem", vars_[0][0]],
+                ["add"], ["interp_axis", d, [labels[d][0]]]]))
+        return {"op": "ds", "dims": dims, "labels": labels, "vars": vars_, "calls": calls, "seed": i}
+
+    def run_ds(self, c):
+        from collections import OrderedDict
+        arrays = OrderedDict()
+        for name, vd in c["vars"]:
+            shape = [len(c["labels"][d]) for d in vd]
+            a = DimArray(np.arange(int(np.prod(shape)), dtype=float).reshape(shape) + 10 * len(arrays),
+                         axes=[Axis(np.array(c["labels"][d], dtype=np.int64), d) for d in vd])
+            a.attrs["hist"] = ["h0"]
+            for ax in a.axes:
+                ax.attrs["note"] = ["n0"]
+            arrays[name] = a
+        before_arrays = {k: snap(v) for k, v in arrays.items()}
+        ds = Dataset(arrays)
+        ds.attrs["title"] = ["T"]
+        viol = []
+        for k, v in arrays.items():
+            if snap(v) != before_arrays[k]:
+                viol.append({"func": "Dataset(...)", "operand": k, "changed": what_changed(before_arrays[k], snap(v))})
+        ncalls = 0
+        for call in c["calls"]:
+            b_ds, b_arr = snap(ds), {k: snap(v) for k, v in arrays.items()}
+            t = call[0]
+            try:
+                if t == "set_axis":
+                    ds.set_axis(np.array(call[2], dtype=np.int64), axis=call[1], inplace=False)
+                elif t == "rename_axes":
+                    ds.rename_axes({call[1]: call[2]}, inplace=False)
+                elif t == "rename_keys":
+                    ds.rename_keys({call[1]: call[2]}, inplace=False)
+                elif t == "take":
+                    ds.take(indices=call[2], axis=call[1], indexing="position")
+                elif t == "mean":
+                    ds.mean(axis=call[1])
+                elif t == "sort_axis":
+                    ds.sort_axis(axis=call[1])
+                elif t == "copy":
+                    cp = ds.copy()
+                    cp.set_axis(np.arange(len(cp.axes[0].values)) + 500, axis=0, inplace=True)
+                elif t == "to_array":
+                    ds.to_array()
+                elif t == "reindex_axis":
+                    ds.reindex_axis(np.array(call[2], dtype=np.int64), axis=call[1])
+                elif t == "take_axis":
+                    ds.take_axis(call[2], axis=call[1], indexing="position")
+                elif t == "getitem":
+                    ds[call[1]] + 1
+                elif t == "add":
+                    ds + ds
+                elif t == "interp_axis":
+                    ds.interp_axis(np.array(call[2], dtype=float), axis=call[1])
+            except Exception:
+                pass
+            ncalls += 1
+            if snap(ds) != b_ds:
+                viol.append({"func": "Dataset." + t, "operand": "dataset", "changed": what_changed(b_ds, snap(ds))})
+            for k, v in arrays.items():
+                if snap(v) != b_arr[k]:
+                    viol.append({"func": "Dataset." + t, "operand": "source array " + k, "changed": what_changed(b_arr[k], snap(v))})
+        return {"ok": {"violations": viol, "calls": ncalls, "funcs": {"Dataset." + call[0]: 1 for call in c["calls"]}, "impl_error": None}}
+
     def sub(self, pid):
         if not hasattr(self, "_subs"):
             self._subs = {}
@@ -379,6 +463,8 @@ class C15(Prop):
         per = 60 if tier == "quick" else 1500
         for i in range(nheap):
             yield self.gen_heap(rng, i)
+        for i in range(150 if tier == "quick" else 4000):
+            yield self.gen_ds(rng, i)
         import random as _r
         for pid in SWEEP:
             sub = self.sub(pid)
@@ -396,6 +482,8 @@ class C15(Prop):
             warnings.simplefilter("ignore")
             if c["op"] == "heap":
                 return {"ok": {"steps": run_heap(c["ops"])}}
+            if c["op"] == "ds":
+                return self.run_ds(c)
             return self.sweep(c)
 
     def sweep(self, c):
@@ -444,7 +532,7 @@ class C15(Prop):
     def judge(self, c, io, ans):
         if "err" in io:
             return {"kind": "P", "differs": ["outcome:" + io["err"]], "msg": io.get("msg")}
-        if c["op"] == "sweep":
+        if c["op"] in ("sweep", "ds"):
             v = io["ok"]["violations"]
             if not v:
                 return None
@@ -500,7 +588,7 @@ class C15(Prop):
             if "ok" in io:
                 f["refused_steps"] = sum(1 for s in io["ok"]["steps"] if "err" in s)
         else:
-            f["plugin"] = c["plugin"]
+            f["plugin"] = c.get("plugin", "dataset-calls")
             if "ok" in io:
                 f["monitored_calls"] = min(io["ok"]["calls"], 9)
                 for q in io["ok"]["funcs"]:
